@@ -33,6 +33,10 @@ func init() {
 			for k := 1; k <= 3; k++ {
 				jobs = append(jobs, Job{Pkg: "root", Func: "verifC13Rewrites", Args: []int64{int64(k), 4}})
 			}
+			for _, ks := range [][2]int64{{1, 1}, {1, 2}, {2, 1}} {
+				jobs = append(jobs, Job{Pkg: "root", Func: "verifC13Engine", Args: []int64{ks[0], ks[1]},
+					Redirect: map[string]string{"(*" + modPath + ".NetworkEngine).MatchAll": "verifMatchAllHist"}})
+			}
 			maxK := 2
 			if tier == "thorough" {
 				maxK = 3
@@ -62,9 +66,9 @@ func init() {
 			e.Ctx["native:rule"] = nativeRuleProvider(curRun.Natives["rules"].(*nativeRules))
 		},
 		AbstractHash: true,
-		MustReach:    []string{"c13.pool", "c13.cache", "c13.nosharing", "c13.lazy", "c13.repeat", "c13.rewrites"},
+		MustReach:    []string{"c13.pool", "c13.cache", "c13.nosharing", "c13.lazy", "c13.repeat", "c13.rewrites", "c13.engine"},
 		Bounds: map[string]string{
-			"quick":    "one inductive step per piece of hidden state from an arbitrary valid pre-state: pooled request with arbitrary contents (hostnames of 1..4 symbolic bytes); rule cache with any subset of 6 indexes of a concrete list already materialised; lazily compiled pattern warm vs cold for every 1-token mask pattern and 1-atom regular expression plus an invalid one, URLs of 3 and 6 symbolic bytes; verdict evaluation on k<=2 request and s<=1 referrer symbolic rules with spare capacity in the caller's slices; network engine queried before and after another query (1..2 rules, URLs of 5..6 bytes); DNSResult getters asked twice on 1..3 symbolic rewrite rules",
+			"quick":    "one inductive step per piece of hidden state from an arbitrary valid pre-state: pooled request with arbitrary contents (hostnames of 1..4 symbolic bytes); rule cache with any subset of 6 indexes of a concrete list already materialised; lazily compiled pattern warm vs cold for every 1-token mask pattern and 1-atom regular expression plus an invalid one, URLs of 3 and 6 symbolic bytes; verdict evaluation on k<=2 request and s<=1 referrer symbolic rules with spare capacity in the caller's slices; network engine queried before and after another query (1..2 rules, URLs of 5..6 bytes); DNSResult getters asked twice on 1..3 symbolic rewrite rules; Engine.MatchRequest after another request (k<=2 request rules, s<=2 referrer rules each, referrers chosen among two hosts x two paths; MatchAll replaced by lists)",
 			"thorough": "verdict evaluation with k<=3",
 		},
 		Outside:     []string{"query histories longer than the inductive step (covered by the invariants, not enumerated)", "state not listed in the property's anchors", "the cosmetic engine: its history independence is decided in C15 (warm variant: a query after another query, the earlier result overwritten by the caller)"},
